@@ -232,6 +232,12 @@ def mutation_sweep(prop, repo):
             ms += mutate.mutants_of(f)
     if not ms:
         return {'status': 'skipped', 'why': 'no anchored source files'}
+    total = len(ms)
+    CAP = 320
+    if total > CAP:
+        # deterministic stride sample (the full set is explored by sweep/mutate.py, results in sweep/MUTANTS.md)
+        step = total / float(CAP)
+        ms = [ms[int(i * step)] for i in range(CAP)]
     with ProcessPoolExecutor(max_workers=16, initializer=_set_repo, initargs=(repo,)) as ex:
         res = list(ex.map(mutate.one, [(m, False) for m in ms], chunksize=4))
     cnt = {}
@@ -240,7 +246,7 @@ def mutation_sweep(prop, repo):
     mine = [r for r in res if r['status'] == 'reported' and prop in r.get('props', [])]
     silent = [{'id': r['id'], 'old': r['old'].strip()[:80], 'new': r['new'].strip()[:60]} for r in res if r['status'] == 'silent']
     return {'explanation': 'evidence only: every single-token mutant of the anchored files is analysed statically; "reported" = some rule reports a violation (for_this_property = a rule attributed to this property does); the silent ones are triaged in sweep/MUTANTS.md (equivalent for the properties, or mask/layout arithmetic)',
-            'files': files, 'mutants': len(ms), 'outcomes': cnt, 'reported_for_this_property': len(mine), 'silent': silent[:60], 'wall_s': round(time.time() - t0, 1)}
+            'files': files, 'mutants_total': total, 'mutants': len(ms), 'outcomes': cnt, 'reported_for_this_property': len(mine), 'silent': silent[:60], 'wall_s': round(time.time() - t0, 1)}
 
 
 def _set_repo(repo):
